@@ -22,7 +22,7 @@ RULE = (
     "general-position integer set G9 x transformation family {every permutation of the points; every layout in {2-D C, 2-D Fortran, strided "
     "view, reversed-twice view, pandas Series with a non-default index, list}; 1..2 ignored extra coordinates; integer dtype (int64, int32) "
     "for coordinates / data / query separately and together; query shape 0-d / 1-d / 2-d; linearity fit(a d1 + b d2) = a fit(d1) + b fit(d2) "
-    "for (a,b) in {(1,1),(2,-3),(.5,1e3)} over all pairs of basis data}. Non-trivial: every case (each runs >= 2 executions). quick takes all "
+    "for (a,b) in {(1,1),(2,-3),(.5,1e3),(1e-11,-3e-12),(1e9,1)} over all pairs of basis data}. Non-trivial: every case (each runs >= 2 executions). quick takes all "
     "4-subsets for layout/dtype/linearity, a seed-rotated sixth of the 5-subsets, and permutations of a seed-rotated third of the 4-subsets."
 )
 ASSUMPTIONS = ["layout / extra-coordinate / dtype transformations present the same element sequence: agreement required to 8 eps x scale "
@@ -316,7 +316,7 @@ def run(case, rec):
         if any(p is None for p in preds):
             return
         for (i, j) in itertools.combinations(range(nrow), 2):
-            for (a, b) in ((1.0, 1.0), (2.0, -3.0), (0.5, 1e3)):
+            for (a, b) in ((1.0, 1.0), (2.0, -3.0), (0.5, 1e3), (1e-11, -3e-12), (1e9, 1.0)):
                 comb = [a * x + b * y for x, y in zip(basis[i], basis[j])]
                 got = _run(rec, factory, (e, n), comb, (qe, qn), "a d%d + b d%d" % (i, j))
                 want = [a * x + b * y for x, y in zip(preds[i], preds[j])]
